@@ -1419,7 +1419,14 @@ class Unit:
                 if r == "R1":
                     rule_R1(ed, src, parts)
                 elif r == "R2":
-                    rule_R2(ed, src, parts, args[1], int(args[2]) if len(args) > 2 else 1)
+                    # the construct may have been written as a `match` already (the form the rule
+                    # produces): then there is nothing to rewrite
+                    try:
+                        rule_R2(ed, src, parts, args[1], int(args[2]) if len(args) > 2 else 1)
+                    except ExtractError as e:
+                        if "not found" not in str(e):
+                            raise
+                        self.report.setdefault("notes", []).append("%s: rule R2 %s: nothing to rewrite (%s)" % (label, " ".join(args[1:]), e))
                 elif r == "R3":
                     rule_R3(ed, src, parts, " ".join(args[1:]))
                 elif r == "R3?":
@@ -1486,6 +1493,10 @@ class Unit:
             "is_fn": is_fn,
             "has_body": bool(parts and parts["body"]),
             "has_contract": any(n == "spec" for (n, _a, _t) in blk.subs),
+            # loops of the body vs loops that carry a loop contract: a loop without an invariant
+            # makes its function unprovable whatever it computes ("needs contract", not "bug")
+            "loops_total": len(loops_in(src, parts["body"][0] + 1, parts["body"][1])) if (parts and parts["body"]) else 0,
+            "loops_annotated": len({arg.strip() for (n, arg, _t) in blk.subs if n == "loop"}),
         })
         if is_fn and n_ann:
             self.fn_names.append(label)
